@@ -239,6 +239,14 @@ class Ref:
                 raise RefError("DefineArgNotFound", f)
         # tokenise body into identifier runs and the rest; substitute formals; expand nested usages
         body = d["body"]
+        if body.startswith("`undef ") and not formals:
+            self.defs.pop(body.split()[1], None)
+            return body + ("(" + ",".join(args) + ")" if args is not None else "")
+        if body.startswith("`define ") and not formals:
+            w = body.split()
+            if w[1] not in ("__LINE__", "__FILE__"):
+                self.defs[w[1]] = dict(formals=None, body=" ".join(w[2:]), file="<macro>", body_off=None)
+            return body + ("(" + ",".join(args) + ")" if args is not None else "")
         out, i = [], 0
         while i < len(body):
             c = body[i]
@@ -351,6 +359,16 @@ class Gen:
             body = None
         elif x < 0.25:
             body = ""      # `define A<space>` : empty/blank body
+        elif x < 0.31 and self.o.get("dirbody", True):
+            # a body that is itself a directive: takes effect where the macro is used
+            other = r.choice([m for m in MACROS if m != name])
+            body = r.choice(["`undef " + other, "`define " + other + " " + r.choice(IDS)])
+            self.funs.pop(name, None)
+            if name not in self.defined:
+                self.defined.append(name)
+            if body.startswith("`undef") and other in self.defined:
+                pass    # may or may not be used before: usages of `other` stay guarded by the reference evaluator
+            return [Define(name, None, body), self.blank(True)]
         else:
             toks = []
             for _ in range(r.randint(1, 3)):
